@@ -508,7 +508,7 @@ theorem filterMap_equiv (t : RT) (g : VEnt → Option V3) : ∀ (ch : List VEnt)
 
 /-- kinds whose centre rule is proved to follow the map -/
 def coveredKind : Kind → Bool
-  | .face | .op | .shape | .sphere | .joint | .stack | .asm | .dcurve | .lcurve | .circle => true
+  | .face | .op | .shape | .sphere | .joint | .stack | .asm | .dcurve | .lcurve | .circle | .ringc => true
   | _ => false
 
 /-- the centre of the transformed output is the image of the centre, for every well-formed entity of a covered kind -/
@@ -572,7 +572,8 @@ theorem centerV_mapV_node (t : RT) (k : Kind) (a : Rat) (ch : List VEnt) (hcov :
     | [.arr vs], hc, hl =>
         simp only [Option.some.injEq] at hc
         subst hc
-        simp only [wfVL, wfV, Bool.and_true, Bool.not_eq_true', List.isEmpty_eq_false_iff] at hl
+        simp only [wfVL, wfV, Bool.and_true, decide_eq_true_eq, arrayMinRows] at hl
+        have hl : vs ≠ [] := by intro h0; rw [h0] at hl; simp at hl
         simp only [List.map, mapV, Option.some.injEq]
         exact (RT.pt_avg t vs hl).symm
     | [], hc, _ => simp at hc
@@ -635,20 +636,25 @@ theorem centerV_mapV_node (t : RT) (k : Kind) (a : Rat) (ch : List VEnt) (hcov :
       obtain ⟨v, hv⟩ := Option.isSome_iff_exists.mp hall.1
       simp [List.filterMap_cons, hv]
     · simp [hall] at hc
+  · -- ringc (ring sketches keep their centre as a point of their own, the last part)
+    rw [mapV_node t _ a ch (by decide)]
+    simp only [centerV, ruleOf, CRule.eval, childrenV, CRule.isCurveOf, Bool.false_eq_true, if_false] at hc ⊢
+    rw [partPointV_mapV, hc]
+    rfl
 
 /-! ### edges on curves and sketches -/
 
 theorem rowsFor_oncurve : rowsFor .oncurve = [⟨"OnCurve", [.oncurve], [one "curve" .curve]⟩] := by rfl
 theorem rowsFor_spline : rowsFor .spline = [⟨"Spline", [.spline], [one "curve" .curve]⟩] := by rfl
 
-def sketchRow : Row := ⟨"Sketch", [.grid, .firstpt, .face0, .sketchavg, .other, .facept3], [many "faces" .face 1]⟩
+def sketchRow : Row := ⟨"Sketch", [.grid, .firstpt, .face0, .sketchavg, .other, .facept3, .oval], [many "faces" .face 1]⟩
 theorem rowsFor_grid : rowsFor .grid = [sketchRow] := by rfl
 theorem rowsFor_firstpt : rowsFor .firstpt = [sketchRow] := by rfl
 theorem rowsFor_face0 : rowsFor .face0 = [sketchRow] := by rfl
 theorem rowsFor_sketchavg : rowsFor .sketchavg = [sketchRow] := by rfl
 
 def sketchKind : Kind → Bool
-  | .grid | .firstpt | .face0 | .sketchavg | .facept3 => true
+  | .grid | .firstpt | .face0 | .sketchavg | .facept3 | .oval => true
   | _ => false
 
 theorem wfNode_sketch (k : Kind) (hk : sketchKind k = true) (ch : List VEnt) (h : wfNode k ch = true) :
@@ -679,7 +685,7 @@ theorem wfNode_curveEdge (k : Kind) (hk : k = .oncurve ∨ k = .spline) (ch : Li
 
 /-- kinds of the second group: edges on curves, sketches -/
 def coveredKind2 : Kind → Bool
-  | .spline | .oncurve | .grid | .firstpt | .face0 | .sketchavg | .facept3 => true
+  | .spline | .oncurve | .grid | .firstpt | .face0 | .sketchavg | .facept3 | .oval => true
   | _ => false
 
 theorem centerV_mapV_node2 (t : RT) (k : Kind) (a : Rat) (ch : List VEnt) (hcov : coveredKind2 k = true)
@@ -791,5 +797,26 @@ theorem centerV_mapV_node2 (t : RT) (k : Kind) (a : Rat) (ch : List VEnt) (hcov 
         List.map_cons, List.head?_cons, Option.bind_some, hfp f0 (by simp), List.getElem?_map] at hc ⊢
       rw [hc]
       rfl
+    · -- oval: midpoint of the first corners of faces 0 and 5
+      simp only [centerV, ruleOf, CRule.eval, childrenV, CRule.isCurveOf, Bool.false_eq_true, if_false,
+        List.getElem?_map] at hc ⊢
+      cases h0 : ch[0]? with
+      | none => simp [h0] at hc
+      | some g0 =>
+        cases h5 : ch[5]? with
+        | none => simp [h0, h5] at hc
+        | some g5 =>
+          have m0 : g0 ∈ ch := List.mem_of_getElem? h0
+          have m5 : g5 ∈ ch := List.mem_of_getElem? h5
+          simp only [h0, h5, Option.map_some, hfp g0 m0, hfp g5 m5, List.head?_map] at hc ⊢
+          cases h1 : (facePtsV g0).head? with
+          | none => simp [h1] at hc
+          | some p =>
+            cases h2 : (facePtsV g5).head? with
+            | none => simp [h1, h2] at hc
+            | some q =>
+              simp only [h1, h2, Option.map_some, Option.some.injEq] at hc ⊢
+              subst hc
+              exact RT.pt_mid t p q
 
 end CBV.C09
